@@ -238,6 +238,18 @@ def prog_case(rng, tier, extended, nlay):
             'features': sorted(p.features) + (['extended-layout'] if extended else []) + (['crlf'] if eol != b'\n' else [])}
 
 
+def nofinal_case(rng, tier):
+    p, lines = make_program(rng, tier, False)
+    while lines and lines[-1] == b'':
+        lines.pop()
+    body = render(lines[:-1], rng, 'none')
+    last = lines[-1] if lines else b'x=1'
+    srcs = [body + last, body + last + rng.choice([b' ', b'  ', b'\t', b' \t ']),
+            render(lines[:-1], rng, 'mixed') + _edge(rng, 'mixed') + last + b'   ']
+    return {'kind': 'prog', 'w': rng.choice(WIDTHS), 'srcs': [s.hex() for s in srcs],
+            'features': sorted(p.features) + ['no-final-newline']}
+
+
 # ------------------------------------------------------------------------------------ cases
 def _rand_run(rng):
     parts = []
@@ -271,6 +283,10 @@ def generate(tier, rng):
     nprog, nlay = (300, 4) if tier == 'quick' else (3000, 8)
     for i in range(nprog):
         yield prog_case(rng, tier, extended=(i % 4 == 3), nlay=nlay)
+    # files without a final newline (the AST writers raise IndexError on them before the S16 fix of worker parser:
+    # then these cases are outside, C09): layout 0 ends right after its last byte, layout 1 adds blanks there
+    for i in range(15 if tier == 'quick' else 150):
+        yield nofinal_case(rng, tier)
     # the command line path: `p8tool luafmt --indentwidth w cart.p8` (argument parsing, cart read, .p8 write)
     for i in range(12 if tier == 'quick' else 120):
         c = prog_case(rng, tier, extended=(i % 3 == 2), nlay=1)
@@ -553,6 +569,12 @@ def signature_of(code, case, obs, k):
     """deterministic classifier of a violation"""
     names = clause_names(code)
     extra = ''
+    if names == ['reindent'] and obs['outs'][k][0] == 'OK' and obs['outs'][0][0] == 'OK':
+        a, b = obs['outs'][0][1], obs['outs'][k][1]
+        src0 = bytes.fromhex(case['srcs'][0])
+        if not src0.endswith((b'\n', b'\r')) and (b == a + b'\n' or a == b + b'\n'):
+            # the file has no final newline: luafmt writes one exactly when blanks follow the last token
+            return 'C10/reindent/final-newline-iff-trailing-blanks'
     if 'reindent' in names and obs['outs'][k][0] != 'OK':
         extra = '/raises-' + obs['outs'][k][1]
     elif 'idempotent' in names and obs['again'][0] != 'OK':
